@@ -7,8 +7,12 @@ on the bits of the double).
 -/
 import Driver.Common
 import Cascette.Model.Retry
+import Cascette.Model.RetryEnv
+import Cascette.Model.RetryClock
+import Cascette.Generated.RetrySrc
 open Cascette Drv
-open Cascette.Model.Retry
+open Cascette.Model Cascette.Model.Retry Cascette.Model.RetryOps
+open Cascette.Generated
 
 namespace C14
 
@@ -41,9 +45,30 @@ def tryFromSecsF64 (x : Float) : Option Nat :=
     let half := 2 ^ (sh - 1)
     some (if r > half ∨ (r = half ∧ q % 2 = 1) then q + 1 else q)
 
-/-- the f64 part of the backoff update of the current code -/
+/-- IEEE doubles as the arithmetic of the GENERATED expressions (Generated/RetrySrc.lean). -/
+def floatOps : Ops Float where
+  asSecsF64 := asSecsF64
+  ofNat := Float.ofNat
+  toU64 := fun x => x.toUInt64.toNat
+  mul := fun a b => a * b
+  fmin := fmin
+  fmax := fmax
+  lit := fun n d => Float.ofNat n / Float.ofNat d
+  tryFromSecsF64 := tryFromSecsF64
+
+/-- the f64 part of the backoff update: the expression the translator read in the source
+(`RetrySrc.scaled`), evaluated on doubles -/
 def scaleFixed (mul : Float) (maxBackoff : Nat) (b : Nat) : Option Nat :=
-  tryFromSecsF64 (fmax (fmin (asSecsF64 b * mul) (asSecsF64 maxBackoff)) 0.0)
+  tryFromSecsF64 (RetrySrc.scaled floatOps b maxBackoff mul)
+
+/-- `execute` assembled from the generated pieces only (Proofs/RetryTie: equal to the model) -/
+def genExecute (mul : Float) (p : Policy) (outs : List Outcome) : Trace :=
+  let S : Shape := { attemptInit := RetrySrc.attempt_init, arms := RetrySrc.arms,
+                     stopGuard := RetrySrc.stop_guard, retryArm := RetrySrc.retry_arm }
+  let P : Pieces := { baseDelay := RetrySrc.base_delay, jitterOn := false,
+                      jittered := fun _ d => d,
+                      nextBackoff := fun b => RetrySrc.next_backoff floatOps b p.maxBackoff mul }
+  genLoop S P p.maxAttempts S.attemptInit (RetrySrc.first_backoff p.initialBackoff p.maxBackoff) outs
 
 def ceilMs (ns : Nat) : Nat := (ns + 999999) / 1000000
 
@@ -134,6 +159,10 @@ def exec (toks : List String) : Option String := do
   if !jit then
     if toks.length ≠ 7 then none
     let t := execute A p (fun _ _ => 0) outs
+    -- the same run on the loop assembled from the generated source pieces
+    let g := genExecute mul p outs
+    if g.calls ≠ t.calls ∨ g.delays ≠ t.delays ∨ resTok g.result ≠ resTok t.result then
+      return s!"source-shape-differs calls={g.calls} d={msList cap g.delays} res={resTok g.result}"
     return s!"calls={t.calls} d={msList cap t.delays} res={resTok t.result}"
   else
     if toks.length ≠ 8 then none
@@ -177,9 +206,53 @@ def env (toks : List String) : Option String := do
   let j ← envVal (← field "j" toks)
   let xb ← field "xbits" toks
   let xbits ← if xb == "none" then some none else (parseBits xb).map some
-  let (p, mul) := fromEnv (fun _ => xbits) (2.0 : Float)
+  -- integer and f64 grammars as the library writes them (Model/RetryEnv); only the VALUE of an
+  -- accepted f64 string is the parameter `xbits`. A string the model accepts and Rust rejects
+  -- (xbits=none) shows as `mul=accepted-by-model-only`.
+  let (p, mul) := RetryEnv.fromEnvC (fun _ => xbits) (some (2.0 : Float))
     { retries := r, backoff := b, maxBackoff := m, multiplier := x, jitter := j }
-  return s!"mx={p.maxAttempts} ini={p.initialBackoff} max={p.maxBackoff} mul={bitsHex mul} jit={if p.jitter then 1 else 0}"
+  let mulS := match mul with
+    | some f => bitsHex f
+    | none => "accepted-by-model-only"
+  return s!"mx={p.maxAttempts} ini={p.initialBackoff} max={p.maxBackoff} mul={mulS} jit={if p.jitter then 1 else 0}"
+
+/-- `pu bits=<32|64> s=<env string>`: `<uN as FromStr>` -/
+def pu (toks : List String) : Option String := do
+  if toks.length ≠ 2 then none
+  let bits ← (← field "bits" toks).toNat?
+  if bits ≠ 32 ∧ bits ≠ 64 then none
+  let v ← envVal (← field "s" toks)
+  let str ← v
+  let a := RetryEnv.parseUnsignedChecked (2 ^ bits) str
+  let b := parseUnsigned (2 ^ bits) str
+  if a ≠ b then return "model-split"
+  return match a with
+    | some n => s!"v={n}"
+    | none => "v=none"
+
+/-- `f64 s=<env string>`: does `<f64 as FromStr>` accept? -/
+def f64acc (toks : List String) : Option String := do
+  if toks.length ≠ 1 then none
+  let v ← envVal (← field "s" toks)
+  let str ← v
+  return s!"acc={if RetryEnv.f64Accepts str then 1 else 0}"
+
+/-- `sleep d=<ns> fits=<0|1>`: what the paused clock shows for `tokio::time::sleep(d)`;
+`fits` = `Instant::now().checked_add(d).is_some()` -/
+def sleepOp (toks : List String) : Option String := do
+  if toks.length ≠ 2 then none
+  let d ← (← field "d" toks).toNat?
+  if d > durMax then none
+  let fits ← match ← field "fits" toks with
+    | "0" => some false
+    | "1" => some true
+    | _ => none
+  -- an `Instant` always has room for the 30-year clamp itself
+  if !fits ∧ d ≤ RetryClock.farFuture then none
+  let room := if fits then max d RetryClock.farFuture else RetryClock.farFuture
+  let o := RetryClock.view (RetryClock.observed room d)
+  if o ≠ RetryClock.view d then return "view-unsound"
+  return s!"ms={o}"
 
 def cdnStep (s : String) : Option (Nat × Option (List Char)) :=
   match s.splitOn ":" with
@@ -210,6 +283,9 @@ def handle : List String → String
   | "exec" :: rest => (exec rest).getD "bad-op"
   | "env" :: rest => (env rest).getD "bad-op"
   | "cdn" :: rest => (cdn rest).getD "bad-op"
+  | "pu" :: rest => (pu rest).getD "bad-op"
+  | "f64" :: rest => (f64acc rest).getD "bad-op"
+  | "sleep" :: rest => (sleepOp rest).getD "bad-op"
   | _ => "bad-op"
 
 end C14
